@@ -44,24 +44,69 @@ def elems_term(kind, els):
     return [elem_term(kind, e) for e in els]
 
 
-def scalar_to_py(kind, sc):
-    """the scalar arr[i] -> nested python lists"""
-    if sc is None:
+UNAVAILABLE = {}          # what -> count; reported as internal-unavailable:<what>, never a violation
+
+
+def _unavailable(what):
+    UNAVAILABLE[what] = UNAVAILABLE.get(what, 0) + 1
+
+
+def arrow_of(arr):
+    """the pyarrow array behind a geometry array, through the public __arrow_array__
+    protocol (what pa.array(arr) calls); None when the protocol is not there"""
+    try:
+        import pyarrow as pa
+        data = arr.__arrow_array__()
+        if isinstance(data, pa.ChunkedArray):
+            data = pa.concat_arrays(data.chunks) if data.num_chunks else None
+        return data
+    except Exception:  # noqa: BLE001
+        _unavailable('arrow-export')
         return None
-    if kind == 'point':
-        return [float(v) for v in sc.flat_values]
-    return sc.data.as_py()
+
+
+def subtype_of(arr):
+    """numpy dtype of the coordinates, from the public dtype (e.g. polygon[float64])"""
+    try:
+        return np.dtype(arr.dtype.subtype)
+    except Exception:  # noqa: BLE001
+        return np.dtype(str(arr.dtype).split('[')[-1].rstrip(']'))
 
 
 def array_to_py(kind, arr):
-    """what pyarrow says the array holds"""
+    """the elements of the array as nested Python lists (None = missing), read through
+    the arrow protocol; None when that is unavailable"""
+    data = arrow_of(arr)
+    if data is None:
+        return None
     if kind == 'point':
+        dt = subtype_of(arr)
         out = []
-        for b in arr.data.to_pylist():
-            out.append(None if b is None else
-                       [float(v) for v in np.frombuffer(b, dtype=arr.numpy_dtype)])
+        for b in data.to_pylist():
+            if b is None:
+                out.append(None)
+            elif isinstance(b, (bytes, bytearray)):
+                out.append([float(v) for v in np.frombuffer(b, dtype=dt)])
+            else:
+                out.append([float(v) for v in b])
         return out
-    return arr.data.to_pylist()
+    return data.to_pylist()
+
+
+def scalars_to_py(kind, arr, scalars):
+    """the scalars arr[i] / iteration return, as nested lists: they are put back into an
+    array with pandas' _from_sequence and read like any array (no access to the scalar's
+    internals)"""
+    if not scalars:
+        return []
+    return array_to_py(kind, type(arr)._from_sequence(list(scalars), dtype=arr.dtype))
+
+
+def scalar_to_py(kind, arr, sc):
+    if sc is None:
+        return None
+    r = scalars_to_py(kind, arr, [sc])
+    return None if r is None else r[0]
 
 
 def same_elem(a, b):
@@ -83,9 +128,62 @@ def is_aei(kind, el):
             and len(G.flat_coords(el)) == 0)
 
 
+def _bits(buf, nbits):
+    if buf is None:
+        return None
+    by = np.frombuffer(buf, dtype=np.uint8)
+    return [bool((by[i // 8] >> (i % 8)) & 1) for i in range(min(nbits, len(by) * 8))]
+
+
+def _vals(buf, dt, upto):
+    vals = np.frombuffer(buf, dtype=dt) if buf is not None else np.array([], dtype=dt)
+    vals = vals[:upto]
+    if np.issubdtype(vals.dtype, np.floating):
+        return [C.num(float(v)) for v in vals]
+    return [C.Some(int(v)) for v in vals]
+
+
 def export(kind, arr):
-    return C.Rec('RFix', C.export_fixarr(arr)) if kind == 'point' \
-        else C.Rec('RList', C.export_listarr(arr))
+    """the buffers of the arrow array behind `arr` as the model's record (RList / RFix), or
+    None (counted) when the storage is not the list / fixed-size-binary layout the model
+    describes.  Nothing about the layout is predicted: the kernel only asserts
+    well-formedness and decodes."""
+    import pyarrow as pa
+    data = arrow_of(arr)
+    if data is None:
+        return None
+    try:
+        bufs = data.buffers()
+        off, n = data.offset, len(data)
+        dt = subtype_of(arr)
+        valid = _bits(bufs[0], off + n)
+        valid = None if valid is None else C.Some(valid)
+        if kind == 'point':
+            if not pa.types.is_fixed_size_binary(data.type):
+                _unavailable('fixed-size-binary-layout')
+                return None
+            return C.Rec('RFix', C.Rec('Build_fixarr', C.Nat(off), C.Nat(n), valid,
+                                       _vals(bufs[1], dt, 2 * (off + n))))
+        typ, lev, large = data.type, 0, False
+        while pa.types.is_list(typ) or pa.types.is_large_list(typ):
+            large = large or pa.types.is_large_list(typ)
+            typ, lev = typ.value_type, lev + 1
+        if lev != G.LEVELS[kind] or len(bufs) != 2 * lev + 2:
+            _unavailable('list-layout')
+            return None
+        need, offs = off + n, []
+        for k in range(lev):
+            ob = bufs[1 + 2 * k]
+            o = np.frombuffer(ob, dtype=np.int64 if large else np.uint32) if ob is not None \
+                else np.array([0], dtype=np.uint32)
+            o = o[:need + 1]            # trailing padding of the buffer is not part of the array
+            offs.append([C.Nat(int(x)) for x in o])
+            need = int(o[-1]) if len(o) else 0
+        return C.Rec('RList', C.Rec('Build_listarr', C.Nat(off), C.Nat(n), valid, offs,
+                                    _vals(bufs[-1], dt, need)))
+    except Exception:  # noqa: BLE001
+        _unavailable('buffer-export')
+        return None
 
 
 # --------------------------------------------------------------------------
@@ -597,58 +695,90 @@ def _key_str(k):
     return f'cx[{f(k[0].start)}:{f(k[0].stop)}, {f(k[1].start)}:{f(k[1].stop)}]'
 
 
-def cx_compare(kind, arr, fresh, nkeys=None, wrappers=False):
-    """None, or (signature, what): arr.cx / arr's spatial index against a fresh array's"""
-    keys = CX_KEYS if nkeys is None else CX_KEYS[:nkeys]
-    # like with like: when the derived array carries a built index, the fresh array gets one
-    # with the same page size (whether cx with an index equals cx without one is C04's
-    # subject: it does not for one-vertex lines / rings, which no segment test can hit)
-    carried_sx = getattr(arr, '_sindex', None)
-    if carried_sx is not None:
-        fresh = type(fresh)(fresh.data, dtype=fresh.dtype)
-        fresh.build_sindex(page_size=getattr(carried_sx, '_page_size', 512))
+def cx_compare(kind, arr, fresh, page_sizes=(), nkeys=None, wrappers=False, query_own=False):
+    """None, or (signature, what): arr.cx / arr's spatial index against a fresh array's.
+
+    Only public observations: whether `arr` carries a built index is not looked at.
+    `page_sizes` are the page sizes build_sindex was called with earlier in the history; an
+    answer is right when it is the answer of a fresh array of the same elements without an
+    index or with an index of one of those page sizes (they all agree except on one-vertex
+    lines / rings, where cx with and without an index differ -- C04's subject)."""
+    keys = CX_KEYS if nkeys is None else nkeys if isinstance(nkeys, list) else CX_KEYS[:nkeys]
+
+    built = [fresh]
+    todo = sorted(set(page_sizes) | {512})
+
+    def fresh_variants():
+        i = 0
+        while True:
+            if i < len(built):
+                yield built[i]
+            elif todo:
+                f = fresh.copy()
+                f.build_sindex(page_size=todo.pop(0))
+                built.append(f)
+                yield f
+            else:
+                return
+            i += 1
+
+    wrapped = {}
+
+    def holder(a, wrap):
+        """the array, or (built once) a GeoSeries / GeoDataFrame around it"""
+        if wrap is None:
+            return a
+        if (id(a), wrap) not in wrapped:
+            if wrap == 'series':
+                from spatialpandas import GeoSeries
+                wrapped[(id(a), wrap)] = (a, GeoSeries(a))
+            else:
+                from spatialpandas import GeoDataFrame
+                wrapped[(id(a), wrap)] = (a, GeoDataFrame({'v': np.arange(len(a)), 'g': a},
+                                                          geometry='g'))
+        return wrapped[(id(a), wrap)][1]
 
     def rows(a, key, wrap=None):
+        r = holder(a, wrap).cx[key]
         if wrap == 'series':
-            from spatialpandas import GeoSeries
-            w = GeoSeries(a)
-            if carried_sx is not None:
-                w.build_sindex(page_size=getattr(carried_sx, '_page_size', 512))
-            r = w.cx[key]
             return array_to_py(kind, r.values), list(r.index)
         if wrap == 'frame':
-            from spatialpandas import GeoDataFrame
-            w = GeoDataFrame({'v': np.arange(len(a)), 'g': a}, geometry='g')
-            if carried_sx is not None:
-                w.build_sindex(page_size=getattr(carried_sx, '_page_size', 512))
-            r = w.cx[key]
             return array_to_py(kind, r['g'].values), list(r['v'])
-        return array_to_py(kind, a.cx[key]), None
+        return array_to_py(kind, r), None
+
+    def same(x, y):
+        return x[1] == y[1] and x[0] is not None and y[0] is not None and len(x[0]) == len(y[0]) \
+            and all(same_elem(p, q) for p, q in zip(x[0], y[0]))
 
     for wrap in ([None, 'series', 'frame'] if wrappers else [None]):
-        for key in keys:
+        for key in (keys if wrap is None else keys[:2]):
             try:
-                got, gi = rows(arr, key, wrap)
+                got = rows(arr, key, wrap)
             except Exception as e:  # noqa: BLE001
                 return (f'cx-raises:{type(e).__name__}',
                         f'{_key_str(key)} ({wrap or "array"}) raised {type(e).__name__}: {str(e)[:160]}')
-            want, wi = rows(fresh, key, wrap)
-            if len(got) != len(want) or not all(same_elem(a, b) for a, b in zip(got, want)) \
-                    or gi != wi:
+            if got[0] is None:
+                return None                      # no arrow protocol: counted, not judged
+            want = None
+            for f in fresh_variants():
+                w = rows(f, key, wrap)
+                want = want or w
+                if same(got, w):
+                    break
+            else:
                 return ('cx-differs',
-                        f'{_key_str(key)} on the derived {wrap or "array"} selects {got!r} '
-                        f'(rows {gi}), on a fresh one of the same elements {want!r} (rows {wi})')
-    # the index the derived array carries (or builds on its own buffers) against a fresh one
-    sx = getattr(arr, '_sindex', None)
-    carried = sx is not None
-    if sx is None:
-        sx = type(arr)(arr.data, dtype=arr.dtype).sindex
-    fx = type(fresh)(fresh.data, dtype=fresh.dtype).sindex
+                        f'{_key_str(key)} on the derived {wrap or "array"} selects {got[0]!r} '
+                        f'(rows {got[1]}), on a fresh one of the same elements {want[0]!r} '
+                        f'(rows {want[1]})')
+    # the spatial index: of the derived array itself (this builds and keeps one when there is
+    # none) or of a copy of it
+    sx = (arr if query_own else arr.copy()).sindex
+    fx = fresh.copy().sindex
     for b in BOXES:
         g = sorted(int(i) for i in sx.intersects(b))
         w = sorted(int(i) for i in fx.intersects(b))
         if g != w:
             return ('sindex-differs',
-                    f'the spatial index {"carried by" if carried else "built on"} the derived array '
+                    f'the spatial index of the derived array{"" if query_own else " (of a copy)"} '
                     f'answers intersects({b}) = {g}, a fresh array\'s {w}')
     return None
